@@ -20,7 +20,7 @@ class C06(Prop):
     trusted_base = ["exact-rational model BvN2.v of bistochastic.py:24-66 on the proved matching model; float rounding and the 1e-9 stopping threshold are modelled only where exact (dyadic inputs)",
                     "matching fuel = observed augmentations + 2"]
     assumptions = ["input is a non-negative square matrix whose rows and columns share one positive sum"]
-    deadline = 30.0
+    deadline = 8.0
 
     def cases(self, rng, tier):
         N = 320 if tier == "quick" else 5000
